@@ -10,6 +10,7 @@ import io
 import json
 import logging
 import os
+import re
 import sys
 
 import common
@@ -21,7 +22,26 @@ from netconan import ip_anonymization as ipa
 from netconan import sensitive_item_removal as SIR
 
 WORDS = ["kitten", "zurnet"]
-ASNS = ["65001", "12", "4200000001"]
+BASE_ASNS = ["65001", "12", "4200000001", "0", "1"]
+_as_cache = {}
+
+
+def asns_for(salt):
+    """Listed AS numbers: a fixed base plus the digit runs of the pseudonyms the word stage produces under this salt
+    (public API), so that the word stage and the AS stage really interact (order of the two stages matters)."""
+    if salt not in _as_cache:
+        extra = []
+        try:
+            for w in WORDS + [x.upper() for x in WORDS]:
+                ps = SIR.SensitiveWordAnonymizer([w], salt, []).anonymize(w)
+                extra += [d for d in re.findall(r"[0-9]+", ps) if 0 < int(d) < 4294967296 and d == str(int(d))]
+        except Exception:
+            pass
+        _as_cache[salt] = BASE_ASNS + sorted(set(extra) - set(BASE_ASNS))
+    return _as_cache[salt]
+
+
+ASNS = BASE_ASNS
 
 
 def cps(s):
@@ -53,6 +73,9 @@ def kind_tokens(kind, r):
         "word-in-pwd-line": ("", [("username", None), ("kitten", "word"), ("password", None), (sec, "pwd")]),
         "v6+v4": (" ", [("tunnel", None), (v6, "ip"), ("destination", None), (v4, "ip")]),
         "crowded": ("", [("kitten-gw", "word"), (v4, "ip"), ("12", "as"), (v6, "ip"), ("x", None), ("password", None), (sec, "pwd")]),
+        "scrubline": (" ", [("peer", None), (v4, "ip"), ("kitten-x", "word"), ("65001", "as"), ("key-string", "scrub"), ("7", "scrub"), ("0822455D0A16544541", "scrub")]),
+        "nodigit-pwd": ("", [("enable", None), ("password", None), (r.choice(["QwertySecretValue", "AnotherSecretXq", "ThirdSecretZw"]), "pwd")]),
+        "v4-mask-zeros": (" ", [("netmask", None), (v4, "ip"), (r.choice(["255.255.255.000", "000.000.000.255", "255.255.000.000"]), None)]),
     }
     return table[kind]
 
@@ -69,7 +92,7 @@ def render(kind, r, eol):
 def make_fa(feats, salt, undo=False):
     return AF.FileAnonymizer(anon_pwd="pwd" in feats, anon_ip=("ip" in feats and not undo), salt=salt,
                              sensitive_words=list(WORDS) if "word" in feats else None, undo_ip_anon=("ip" in feats and undo),
-                             as_numbers=list(ASNS) if "as" in feats else None)
+                             as_numbers=list(asns_for(salt)) if "as" in feats else None)
 
 
 class Logs(logging.Handler):
@@ -120,9 +143,8 @@ def pipe_cases(ck, tier):
                "texts of <= %d line kinds x 16 feature sets x 3 terminators; design theorems ChainEqualsMulti (C15) and Conserved (C12) on the abstract pipeline" % ml)
 
 
-def has_listed_as_run(tok):
-    import re
-    return any(run in ASNS for run in re.findall(r"[0-9]+", tok))
+def has_listed_as_run(tok, salt="TESTSALT"):
+    return any(run in asns_for(salt) for run in re.findall(r"[0-9]+", tok))
 
 
 def sens_positions(toks, feats):
@@ -131,6 +153,8 @@ def sens_positions(toks, feats):
     out = []
     for i, (t, f) in enumerate(toks):
         if f and any(x in feats for x in f.split("|")):
+            out.append(i + 1)
+        elif f == "scrub" and "pwd" in feats:
             out.append(i + 1)
         elif "as" in feats and has_listed_as_run(t):
             out.append(i + 1)
@@ -170,7 +194,7 @@ def run_c12(ck, tier):
         rr = rng("C12", "case", ci)
         lines, toks = concretize_text(case, rr)
         text = "".join(lines)
-        ev = [{"ev": "cfg", "collapse": ("pwd" in feats or "word" in feats), "clauses": ["Structure", "Samepermuted", "Samesplit"]}]
+        ev = [{"ev": "cfg", "collapse": ("pwd" in feats or "word" in feats), "clauses": ["Structure", "Samepermuted", "Samesplit", "Samefileentry"]}]
         info = [None]
         try:
             out, errs = run_io(make_fa(feats, "TESTSALT"), text)
@@ -185,8 +209,25 @@ def run_c12(ck, tier):
         info.append(("text", "%r -> %r" % (text, out)))
         if len(outs) == len(lines):
             for ln, o, tk in zip(lines, outs, toks):
+                if "pwd" in feats and any(f == "scrub" for _, f in tk):
+                    continue          # don't-care: scrub-mode syntaxes replace the rest of the line by a notice
                 ev.append({"ev": "line", "in": cps(ln), "out": cps(o), "sens": sens_positions(tk, feats)})
                 info.append(("line", "%r -> %r" % (ln, o)))
+            # the same text through the file entry point (terminators must survive there too)
+            if ci % 6 == 0:
+                try:
+                    base = tlc.subdir("c12files")
+                    pin, pout = os.path.join(base, "in_%d.cfg" % ci), os.path.join(base, "out_%d.cfg" % ci)
+                    with open(pin, "w", encoding="utf-8", newline="") as fh:
+                        fh.write(text)
+                    AF.anonymize_files(pin, pout, "pwd" in feats, "ip" in feats, salt="TESTSALT", sensitive_words=list(WORDS) if "word" in feats else None,
+                                       as_numbers=list(asns_for("TESTSALT")) if "as" in feats else None)
+                    fo = open(pout, encoding="utf-8", newline="").read() if os.path.isfile(pout) else "<no output file>"
+                    ev.append({"ev": "same", "what": "fileentry", "a": out, "b": fo})
+                    info.append(("fileentry", "stream %r vs file entry point %r" % (out, fo)))
+                except Exception as e:
+                    ev.append({"ev": "exc", "what": "anonymize_files: %r" % (e,)})
+                    info.append(("fileentry", "EXC"))
             # line locality: each line alone through a fresh anonymizer (no secrets: numbering depends on history)
             if "pwd" not in feats and len(lines) > 1:
                 try:
@@ -215,7 +256,7 @@ def chain_stagewise(feats, salt, text, undo=False):
     a6 = ipa.IpV6Anonymizer(salt, preserve_suffix=None) if "ip" in feats else None
     a4 = ipa.IpAnonymizer(salt, None, None, preserve_suffix=None) if "ip" in feats else None
     wa = SIR.SensitiveWordAnonymizer(list(WORDS), salt) if "word" in feats else None
-    aa = SIR.AsNumberAnonymizer(list(ASNS), salt) if "as" in feats else None
+    aa = SIR.AsNumberAnonymizer(list(asns_for(salt)), salt) if "as" in feats else None
     outs = list(lines)
     if regexes is not None:
         outs = [SIR.replace_matching_item(regexes, x, lookup, salt) for x in outs]
@@ -279,7 +320,8 @@ ADV = {
     "bs_n": "a\\nb", "bs_1": "x\\1y", "bs_g": "\\g<prefix>", "bs_d": "\\d+", "bs_end": "abc\\", "bs_b": "\\bword\\b", "paren": "(", "star": "*a*", "class_open": "[a-",
     "plusq": "+?", "dollar": "$", "caret": "^x", "dotstar": ".*", "brace1": "{1", "pipe": "a|b",
     "md5_salt9": "$1$123456789$abcdefghijklmnopqrstuv", "md5_salt0": "$1$$abcdefghijklmnopqrstuv", "md5_nohash": "$1$salt$", "md5_salt10": "$1$1234567890$abcdefghijklmnopqrstuv", "md5_only": "$1$",
-    "j9_short": "$9$ab", "j9_foreign": "$9$abc_def!", "j9_valid": G.j9_encode("hunter2", "Q"), "j9_trunc": G.j9_encode("hunter2", "i")[:-1], "j9_magic": "$9$",
+    "j9_short": "$9$ab", "j9_foreign": "$9$abc_def!", "j9_valid": G.j9_encode("hunter2", "Q"), "j9_trunc": G.j9_encode("hunter2", "i")[:-1], "j9_magic": "$9$", "j9_underscore": "$9$ab_cdefgh", "j9_nonascii": "$9$eZkv\u00e9X7dbs4JG",
+    "sha_longsalt": "$6$" + "a" * 20 + "$" + "b" * 86, "sha_rounds_big": "$6$rounds=999999999999$saltsalt$" + "c" * 86,
     "sha_bare": "$6$", "sha_rounds": "$6$rounds=1$x$y",
     "fe80_pct": "fe80:%x", "fe80_1_pct": "fe80::1:%x", "v6_tail3": "::ffff:1.2.3", "colons3": ":::", "dc2": "1::2::3",
     "brk_1": "[", "brk_10": "[" * 10, "brk_2000": "[" * 2000, "quote_10": '"' * 10, "nest_1500": "{" * 1500 + "x" + "}" * 1500,
@@ -356,7 +398,7 @@ def run_c14(ck, tier):
         try:
             AF.anonymize_files(ind, outd, "pwd" in feats, "ip" in feats and "undo" not in c0["feats"], salt=SALTS[c0["salt"]],
                                sensitive_words=list(WORDS) if "word" in feats else None, undo_ip_anon="undo" in c0["feats"],
-                               as_numbers=list(ASNS) if "as" in feats else None)
+                               as_numbers=list(asns_for(SALTS[c0["salt"]])) if "as" in feats else None)
         except Exception as e:
             ev.append({"ev": "exc", "what": "anonymize_files raised %s: %s" % (type(e).__name__, str(e)[:200])})
             info.append(("exception:" + type(e).__name__, "anonymize_files"))
